@@ -133,6 +133,11 @@ pub fn constructs(thorough: bool) -> Vec<Construct> {
         v.push(expr_c(&format!("struct2-select.{f}"), 2, move |o| format!("struct{{ a := {}, b := {} }}.{f}", o[0], o[1])));
     }
     v.push(expr_c("array2-select[-1]", 2, |o| format!("[{}, {}][-1]", o[0], o[1])));
+    // a struct literal that names a field twice: whatever the rule (last wins), the value and the
+    // static type follow the same one
+    v.push(expr_c("struct2-repeated-field", 2, |o| format!("struct{{ a := {}, a := {} }}", o[0], o[1])));
+    v.push(expr_c("struct2-repeated-field-select", 2, |o| format!("struct{{ a := {}, a := {} }}.a", o[0], o[1])));
+    v.push(expr_c("struct3-repeated-field-select", 2, |o| format!("struct{{ a := {}, b := 0, a := {} }}.a", o[0], o[1])));
     v.push(expr_c("array2-slice[1:]", 2, |o| format!("[{}, {}][1:]", o[0], o[1])));
     v.push(expr_c("array2-len", 2, |o| format!("std.len([{}, {}])", o[0], o[1])));
     v.push(expr_c("tuple2-in-tuple-select", 2, |o| format!("(({}, {}), 0).0.1", o[0], o[1])));
@@ -519,6 +524,12 @@ pub fn program_typed(c: &Construct, tys: &[&Ty], ret: &str) -> String {
     let params: Vec<String> = tys.iter().enumerate().map(|(i, t)| format!("{}: {}", NAMES[i], t.print())).collect();
     let ops: Vec<String> = NAMES[..c.slots].iter().map(|s| s.to_string()).collect();
     format!("f := ({}) -> {ret} {{ {} }}", params.join(", "), (c.render)(&ops))
+}
+
+pub fn program_captured(c: &Construct, tys: &[&Ty], ret: &str) -> String {
+    let params: Vec<String> = tys.iter().enumerate().map(|(i, t)| format!("{}: {}", NAMES[i], t.print())).collect();
+    let ops: Vec<String> = NAMES[..c.slots].iter().map(|s| s.to_string()).collect();
+    format!("f := ({}) -> {ret} {{ inner := () -> {ret} {{ {} }}; return inner() }}", params.join(", "), (c.render)(&ops))
 }
 
 pub fn program_literal(c: &Construct, lits: &[&str]) -> String {
@@ -1137,6 +1148,31 @@ impl Ctx {
                 let lcase = json!({"kind": "host_call", "program": ltext, "args": []});
                 if let Some(r) = self.host_call(&lf, vec![], &lorigin, &lcase) {
                     self.call_closure(&r, 2, &lorigin, &lcase);
+                }
+            }
+            // captured twin: the operands are parameters of an outer function, the construct sits in
+            // an inner function value created at run time (its body is folded then, against the
+            // captured values, while the program runs)
+            let ctext = program_captured(c, tys, &ret);
+            let corigin = format!("{origin}|captured");
+            begin_case();
+            if let Some(cf) = self.define(&ctext, &corigin) {
+                let mut cargs = Vec::new();
+                let mut ok = true;
+                let mut kk = k;
+                for cnd in &cands {
+                    let ri = cnd[kk % cnd.len()];
+                    kk /= cnd.len();
+                    match self.values.make(ri) {
+                        Some(v) => cargs.push(v),
+                        None => ok = false,
+                    }
+                }
+                if ok {
+                    let ccase = json!({"kind": "host_call", "program": ctext, "args": lits});
+                    if let Some(r) = self.host_call(&cf, cargs, &corigin, &ccase) {
+                        self.call_closure(&r, 2, &corigin, &ccase);
+                    }
                 }
             }
             // top-level expression form: static type of the program vs value of its execution
